@@ -100,7 +100,22 @@ func sEq(a, b string) string {
 	if a == b {
 		return "true"
 	}
+	if isNumeral(a) && isNumeral(b) {
+		return "false"
+	}
 	return sx("=", a, b)
+}
+
+func isNumeral(s string) bool {
+	if s == "" {
+		return false
+	}
+	for _, c := range s {
+		if c < '0' || c > '9' {
+			return false
+		}
+	}
+	return true
 }
 
 // quote a symbol
